@@ -1,6 +1,6 @@
-(* Props/C09_findings.v — witnesses of the two OPEN C09 findings (known_findings.json): inputs on
+(* Props/C09_findings.v — witness of the OPEN C09 finding (known_findings.json): an input on
    which the faithful model, like the implementation, does NOT resume to the reference run.
-   Both violate the hypothesis `queue_ok` of C09_resume_partial. *)
+   It violates `history_ok` (C09_resume) and `queue_ok` (C09_resume_partial). *)
 From Coq Require Import ZArith List Bool String.
 From ACN Require Import Base.Num Model.Resume Proofs.Resume Proofs.ResumeFindings.
 Import ListNotations.
@@ -20,16 +20,3 @@ Theorem C09_resume_zero_stay_refuted :
     /\ d_calls (s_rest sref) <> d_calls (s_rest sres).
 Proof. exact zero_stay_refuted. Qed.
 Print Assumptions C09_resume_zero_stay_refuted.
-
-(* an event of the base class Event (event_type "") as the last event, max_recompute = 1:
-   PluginEvent(0, EV(0, 2)), Event(4); the scheduler raises at its fifth call (period 4, due only
-   because of max_recompute; the queue has just been drained and _resolve is False).
-   Reference: 5 periods.  Interrupted and resumed: run() returns at once, 4 periods. *)
-Theorem C09_resume_untyped_event_refuted :
-  exists (k fuel : nat) (sc sref sres : dsim HeapQ),
-    drun fuel None untyped_witness = Done sref
-    /\ drun fuel (Some k) untyped_witness = Raised sc
-    /\ drun fuel None sc = Done sres
-    /\ s_iter sref = 5 /\ s_iter sres = 4.
-Proof. exact untyped_refuted. Qed.
-Print Assumptions C09_resume_untyped_event_refuted.
